@@ -20,6 +20,7 @@ The oracle is the TLA+ state; Python only builds the objects, divides/multiplies
 """
 from __future__ import annotations
 
+import itertools
 import multiprocessing
 import os
 import random
@@ -51,9 +52,9 @@ def cfg_text(spaces, fn1, fn2, npts, max_calls, max_level, lin="noInteger", grad
 # The callables a user would write (inputs of the experiment, not the oracle); they are calibrated against
 # the specification's F / DF on every point of the catalogue before anything is replayed.
 
-def _qs(x):
+def _qs(x):  # (also called with complex x by the complex-step approximation)
     n = len(x)
-    return float(sum(x[i] * x[i] + (i + 2) * x[i] for i in range(n)) + x[0] * x[n - 1])
+    return sum(x[i] * x[i] + (i + 2) * x[i] for i in range(n)) + x[0] * x[n - 1]
 
 
 def _dqs(x):
@@ -65,7 +66,7 @@ def _dqs(x):
 
 
 def _q2(x):
-    return float(x[0] * x[len(x) - 1] - x[0])
+    return x[0] * x[len(x) - 1] - x[0]
 
 
 def _dq2(x):
@@ -88,13 +89,30 @@ class Logged:
         return self.fn(x)
 
 
-# binding-only dimensions (the specification's values do not depend on them): representation of the user's
-# Jacobian, support_sparse_jacobian, role of the second function, one vector variable vs scalar variables,
-# user derivatives vs finite differences (only on spaces without integer variable; compared with a tolerance)
-VARIANTS = [dict(jac=j, support_sparse=s, role2=r, grouped=g, diff=d)
-            for d in ("user", "finite_differences") for j in ("dense", "sparse") for s in (False, True)
-            for r in ("constraint", "observable") for g in (False, True)]
-FD_ATOL = 1e-4 * S  # forward differences with the default step 1e-7 on quadratics with |f''| <= 32
+# binding-only dimensions (the specification's values do not depend on them):
+#  diff            user derivatives / finite differences / complex step (approximations only on spaces without
+#                  integer variable, compared with a tolerance; complex step as the drivers use it:
+#                  design_space.to_complex() before the preprocessing)
+#  jac             class of the user's Jacobian (ndarray, csr_array, csc_array) and of the linear coefficients
+#  support_sparse  preprocess_functions(support_sparse_jacobian=...)
+#  role2           the second function is a constraint / an observable
+#  grouped         one vector variable instead of scalar variables (spaces without integer variable)
+#  build           HOW the same design space is declared: bounds given to add_variable, or set afterwards with
+#                  set_lower_bound / set_upper_bound in either order
+#  cur             current value of the design space: none / set from a float array / from an int array
+#  pre_norm        the design space has already normalised a vector before the problem is preprocessed
+VARIANT_DIMS = {
+    "diff": ("user", "finite_differences", "complex_step"),
+    "jac": ("dense", "csr", "csc"),
+    "support_sparse": (False, True),
+    "role2": ("constraint", "observable"),
+    "grouped": (False, True),
+    "build": ("add", "lb_then_ub", "ub_then_lb"),
+    "cur": ("none", "float", "int"),
+    "pre_norm": (False, True),
+}
+VARIANTS = [dict(zip(VARIANT_DIMS, vals)) for vals in itertools.product(*VARIANT_DIMS.values())]
+FD_ATOL = 1e-4 * S  # forward differences / complex step with the default step 1e-7, quadratics with |f''| <= 32
 
 
 class Harness:
@@ -105,8 +123,9 @@ class Harness:
         from gemseo.algos.optimization_problem import OptimizationProblem
         from gemseo.core.mdo_functions.mdo_function import MDOFunction
         from gemseo.core.mdo_functions.mdo_linear_function import MDOLinearFunction
+        from scipy.sparse import csc_array
+        from scipy.sparse import csc_matrix
         from scipy.sparse import csr_array
-        from scipy.sparse import csr_matrix
 
         self.cfg = cfgd
         self.sp = sp
@@ -117,38 +136,57 @@ class Harness:
         ds = DesignSpace()
         lb = [-np.inf if c["lbInf"] else c["lb"] / S for c in comps]
         ub = [np.inf if c["ubInf"] else c["ub"] / S for c in comps]
+        # the same space, declared in different ways
         if variant["grouped"] and not self.int_cols:
-            ds.add_variable("x", n, lower_bound=np.array(lb), upper_bound=np.array(ub))
+            decl = [("x", n, "float", np.array(lb), np.array(ub))]
         else:
-            for i, c in enumerate(comps):
-                ds.add_variable(f"x{i}", 1, type_="integer" if c["int"] else "float",
-                                lower_bound=lb[i], upper_bound=ub[i])
+            decl = [(f"x{i}", 1, "integer" if c["int"] else "float", lb[i], ub[i]) for i, c in enumerate(comps)]
+        for name, size, type_, lo, up in decl:
+            if variant["build"] == "add":
+                ds.add_variable(name, size, type_=type_, lower_bound=lo, upper_bound=up)
+                continue
+            ds.add_variable(name, size, type_=type_)
+            setters = [(ds.set_lower_bound, lo, -np.inf), (ds.set_upper_bound, up, np.inf)]
+            for setter, bound, default in (setters if variant["build"] == "lb_then_ub" else setters[::-1]):
+                if np.any(np.asarray(bound) != default):
+                    setter(name, bound)
         if sp["intNorm"]:
             ds.enable_integer_variables_normalization = True
         self.ds = ds
         self.logs = {f: {"f": [], "j": []} for f in fns}
-        sparse = variant["jac"] == "sparse"
+        sparse = variant["jac"] != "dense"
         self.fd = variant["diff"] != "user" and not self.int_cols
-        self.problem = problem = OptimizationProblem(
-            ds, differentiation_method=variant["diff"] if self.fd else "user")
+        self.diff = variant["diff"] if self.fd else "user"
+        # current value: an integer inside the bounds for every component
+        cur = "float" if self.diff == "complex_step" else variant["cur"]
+        self.cur = cur
+        x0 = [int(-(-c["lb"] // S)) if not c["lbInf"] else (int(c["ub"] // S) if not c["ubInf"] else 0) for c in comps]
+        if cur != "none":
+            ds.set_current_value(np.array(x0, dtype=np.int64 if cur == "int" else np.float64))
+        if variant["pre_norm"]:
+            ds.normalize_vect(np.array(x0, dtype=float))
+        if self.diff == "complex_step":
+            ds.to_complex()  # what BaseOptimizationLibrary does before preprocessing the functions
+        self.problem = problem = OptimizationProblem(ds, differentiation_method=self.diff)
         self.lin = {}
         self.mdo = mdo = {}
         # class of the coefficient matrix of the linear functions (binding-only, derived from the variant)
-        self.lin_coeff = ("csr_matrix" if variant["role2"] == "observable" else "csr_array") if sparse else "ndarray"
+        self.lin_coeff = {"dense": "ndarray", "csr": "csr_array", "csc": "csc_matrix"}[variant["jac"]]
+        sp_cls = csc_array if variant["jac"] == "csc" else csr_array
         for f in fns:
             lg = self.logs[f]
             if f in ("qs", "qv"):
                 if f == "qs":
-                    val, jac = _qs, ((lambda x: csr_array(_dqs(x).reshape(1, -1))) if sparse else _dqs)
+                    val, jac = _qs, ((lambda x: sp_cls(_dqs(x).reshape(1, -1))) if sparse else _dqs)
                 else:
                     val = lambda x: np.array([_qs(x), _q2(x)])  # noqa: E731
                     dj = lambda x: np.vstack([_dqs(x), _dq2(x)])  # noqa: E731
-                    jac = (lambda x: csr_array(dj(x))) if sparse else dj
+                    jac = (lambda x: sp_cls(dj(x))) if sparse else dj
                 mdo[f] = MDOFunction(Logged(val, lg["f"]), f, jac=Logged(jac, lg["j"]))
             else:
                 a, b = self.lin[f] = lin_data[(f, n)]
                 # sparse coefficients: the user's own matrix object is kept by the function
-                coefficients = {"csr_matrix": csr_matrix, "csr_array": csr_array, "ndarray": np.array}[self.lin_coeff](a)
+                coefficients = {"csc_matrix": csc_matrix, "csr_array": csr_array, "ndarray": np.array}[self.lin_coeff](a)
                 mdo[f] = MDOLinearFunction(coefficients, f, value_at_zero=b.copy())
                 mdo[f].func = Logged(mdo[f].func, lg["f"])
                 mdo[f].jac = Logged(mdo[f].jac, lg["j"])
@@ -255,9 +293,9 @@ def compare_step(ck: Check, h: Harness, state, got, ctx):
              "space": str(sp["id"]), "int_var": bool(h.int_cols), "normalize": bool(cfgd["normalize"]),
              "use_db": bool(cfgd["useDb"]), "store_jac": bool(cfgd["storeJac"]),
              "round_ints": bool(cfgd["roundInts"]), "frac_int": bool(ctx["frac"]), "call": str(ret["call"][0]),
-             "neg_zero_key": neg_zero}
-        if h.fd:
-            s["diff"] = h.variant["diff"]
+             "neg_zero_key": neg_zero, "complex_key": complex_key}
+        s.update(diff=h.diff, jac=h.variant["jac"], support_sparse=h.variant["support_sparse"],
+                 build=h.variant["build"], cur=h.cur, pre_norm=h.variant["pre_norm"])
         s.update(kw)
         return s
 
@@ -285,7 +323,8 @@ def compare_step(ck: Check, h: Harness, state, got, ctx):
         return True
 
     # classification only: numpy's -0.0 among the implementation's keys
-    neg_zero = any(bool(np.any(np.signbit(k.wrapped_array) & (k.wrapped_array == 0))) for k in h.problem.database)
+    neg_zero = any(bool(np.any(np.signbit(np.real(k.wrapped_array)) & (k.wrapped_array == 0))) for k in h.problem.database)
+    complex_key = any(np.iscomplexobj(k.wrapped_array) for k in h.problem.database)
     # returned values / Jacobians
     for f in fns:
         exp = spec_vec(ret["outs"][f])
@@ -345,7 +384,7 @@ def compare_step(ck: Check, h: Harness, state, got, ctx):
             if vec(val) != list(want[0]) or mat(jac) != [list(r) for r in want[1]]:
                 problems.append({"point": list(pt), "impl": [vec(val), mat(jac)], "spec": want})
         if problems:
-            bad += ck.violation("OriginalIntact", sig("OriginalIntact", f, "original", jac=h.variant["jac"]),
+            bad += ck.violation("OriginalIntact", sig("OriginalIntact", f, "original"),
                                 detail(function=f, problems=problems))
     # original calls
     for f in fns:
@@ -402,8 +441,7 @@ def replay(ck: Check, states, fns, lin_data, variant, label):
                      {"cfg": cfgd, "space": sp, "variant": variant, "traceback": traceback.format_exc(limit=8)})
         return
     ctx = {"calls": [], "frac": False, "calib": lin_data["calib"]}
-    if h.fd:
-        base_sig["diff"] = variant["diff"]
+    base_sig.update(diff=h.diff, build=variant["build"], cur=h.cur, pre_norm=variant["pre_norm"])
     for st in states[1:]:
         call = st["ret"]["call"]
         ctx["calls"].append(call)
